@@ -1,4 +1,4 @@
-// U21 patch-log transaction bracket -- patches/patch_log.rs::{begin_transaction, finish_transaction}   (engine V)
+// U21 patch-log transaction bracket -- patches/patch_log.rs::{begin_transaction, finish_transaction, migrate_actors}   (engine V)
 //
 // Backs the two contracts U16 ASSUMES about the patch log: `begin_transaction` may only be called with no
 // speculative actor recorded (its `assert!` is the obligation) and `finish_transaction` always clears it.
@@ -14,6 +14,12 @@ impl vstd::std_specs::cmp::PartialEqSpecImpl for ActorId {
     open spec fn eq_spec(&self, o: &Self) -> bool { *self == *o }
 }
 impl PartialEq for ActorId { #[verifier::external_body] fn eq(&self, o: &Self) -> (r: bool) ensures r == (*self == *o) { unimplemented!() } }
+/// `Ord for ActorId` (derived, byte-wise): nothing about the order is used here, only that `<` is callable
+impl vstd::std_specs::cmp::PartialOrdSpecImpl for ActorId {
+    open spec fn obeys_partial_cmp_spec() -> bool { false }
+    uninterp spec fn partial_cmp_spec(&self, o: &Self) -> Option<core::cmp::Ordering>;
+}
+impl PartialOrd for ActorId { #[verifier::external_body] fn partial_cmp(&self, o: &Self) -> (r: Option<core::cmp::Ordering>) { unimplemented!() } }
 pub assume_specification<T: PartialEq>[ <[T]>::contains ](s: &[T], x: &T) -> (r: bool) ensures r == s@.contains(*x);
 
 #[verifier::external_body] pub struct ObjId { _p: () }
@@ -46,14 +52,47 @@ pub fn vf_binary_search(v: &Vec<ActorId>, x: &ActorId) -> (r: Result<usize, usiz
     ensures r matches Ok(i) ==> i < v.len(), r matches Err(i) ==> i <= v.len(),
 { unimplemented!() }
 
+/// trusted wrappers: slice equality, `to_vec`, `get` (std contracts)
+#[verifier::external_body]
+pub fn vf_slice_eq(v: &Vec<ActorId>, o: &[ActorId]) -> (r: bool) ensures r == (v@ == o@) { unimplemented!() }
+#[verifier::external_body]
+pub fn vf_to_vec(o: &[ActorId]) -> (r: Vec<ActorId>) ensures r@ == o@ { unimplemented!() }
+#[verifier::external_body]
+pub fn vf_get(v: &Vec<ActorId>, i: usize) -> (r: Option<&ActorId>) ensures r == (if i < v.len() { Some(&v[i as int]) } else { None::<&ActorId> }) { unimplemented!() }
+#[verifier::external_body]
+pub fn vf_sget(v: &[ActorId], i: usize) -> (r: Option<&ActorId>) ensures r == (if i < v.len() { Some(&v[i as int]) } else { None::<&ActorId> }) { unimplemented!() }
+
 // ---------------------------------------------------------------- the real code
 //@ item rust/automerge/src/patches/patch_log.rs | struct PatchLog
 
 impl PatchLog {
-    /// ASSUMED: re-aligning the actor list touches neither the speculative actor nor anything else this unit states
+    /// ASSUMED (body: iterator adapters over the events): re-indexes the events for an actor inserted at `index`
     #[verifier::external_body]
-    pub fn migrate_actors(&mut self, others: &[ActorId]) -> (r: Result<(), PatchLogMismatch>)
-        ensures final(self).speculative_actor == old(self).speculative_actor { unimplemented!() }
+    fn migrate_actor(&mut self, index: usize)
+        requires index < old(self).actors.len(),
+        ensures final(self).speculative_actor == old(self).speculative_actor, final(self).actors == old(self).actors { unimplemented!() }
+
+//@ fn rust/automerge/src/patches/patch_log.rs | impl PatchLog | migrate_actors
+//@   ret r
+//@   subst /crate::PatchLogMismatch/ => PatchLogMismatch
+//@   subst /self\.actors\.as_slice\(\) == others/ => vf_slice_eq(&self.actors, others)
+//@   subst /others\.to_vec\(\)/ => vf_to_vec(others)
+//@   subst /self\.actors\.get\(i\)/ => vf_get(&self.actors, i)
+//@   subst /others\.get\(i\)/ => vf_sget(others, i)
+//@   spec
+        // C37 (D28 failed here): Ok means the log's table IS the document's table -- a log that knows actors the
+        // document does not (a log of another document) is a PatchLogMismatch, not a success
+        ensures r is Ok ==> final(self).actors@ == others@,
+            final(self).speculative_actor == old(self).speculative_actor,
+//@   loop 1 iter it
+            invariant it.index@ <= self.actors.len(), it.index@ <= others.len(),
+                forall|k: int| 0 <= k < it.index@ ==> self.actors@[k] == others@[k],
+                self.speculative_actor == old(self).speculative_actor,
+                it.seq() == Seq::new(others.len() as nat, |k: int| k as usize),
+//@   before /^\s*Ok\(\(\)\)\s*$/
+        proof { if self.actors.len() == others.len() { assert(self.actors@ =~= others@); } }
+//@ end
+
     /// ASSUMED (body: iterator adapters over the events): removes table entry `index`
     #[verifier::external_body]
     fn remove_actor(&mut self, index: usize)
